@@ -686,11 +686,17 @@ theorem C06_lookup_returns_repaired : C06_lookup_returns_full false := by
   unfold C06_lookup_returns_full
   decide
 
+/-- **The look-up of TeardownEnvironment returns, for the code as it is** (`Rw.nestedInCode = false`
+    since the `fix:` commit; tied to the source by `C06_lookup_is_code`): every maximal schedule of the
+    read-lock protocol against a writer ends with the look-up done. -/
+theorem C06_lookup_returns_code : C06_lookup_returns_full Rw.nestedInCode :=
+  C06_lookup_returns_repaired
+
 /-- **The model's lookup is the code's**: go/ast of core/environment/manager.go finds the call
     `envs.environment(…)` of TeardownEnvironment between `envs.mu.RLock()` and `envs.mu.RUnlock()`, and
     an `envs.mu.RLock()` inside `environment` itself. Removing either breaks this theorem (and
     closes the finding). -/
-theorem C06_lookup_is_code : Rw.nestedInCode = Gen.teardownLookupNestedRLock ∧ Gen.teardownLookupLocks = (true, true) := by decide
+theorem C06_lookup_is_code : Rw.nestedInCode = Gen.teardownLookupNestedRLock ∧ Gen.teardownLookupLocks = (false, true) := by decide
 
 /-- In the ownership model the deadlock is the two teardowns of environment `k` never returning:
     `k` stays listed, marked as being torn down for ever; nothing else changes. -/
